@@ -52,6 +52,9 @@ CHECKS["C18"] = ("model_checking", "bounded-exhaustive exploration of the real c
 CHECKS["C19"] = ("model_checking", "bounded-exhaustive exploration of the real code with a relational oracle: every typing schedule of N events (gaps {0,1,3,12}) recorded between start and every kind of stop, replayed once / twice / re-triggered, on time-insensitive and time-sensitive configs in both replay-delay behaviours and two size limits; the replay-phase output of the real instance is compared with a fresh real instance fed the recorded events; plus self-play, nested play, re-record and size-limit scenarios",
   "For every explored recording the replay produces the same key presses in the same order (and the same multiset of events) as typing the recorded events again, nothing is left pressed, self-play terminates, and the size limit ends the recording.",
   "typing gaps kept away from the tap-hold boundary; when a key is still down at stop on a time-sensitive config only 'nothing left down' is checked; stepper mode (C07 covers blocking)", "DESIGN.md §4 C19")
+CHECKS["C20"] = ("model_checking", "bounded-exhaustive exploration of the real code: all dictionaries of 1-2 (thorough 1-3) entries over 4 key sets x a 6-string output pool x 3 smart-space modes; for every entry every press permutation x gap vector x shift held or not x release order x continuation, two-round scenarios for every ordered entry pair with three interruption kinds, follow-up chords, and all generic histories of D steps; the OS output is replayed into a text-buffer model",
+  "For every explored execution the text left on screen is exactly the expansion (plus smart space) followed by what was typed afterwards, non-chord typing passes through unchanged, the OS shift state equals the physical one, and nothing stays pressed.",
+  "US-layout text model; chords whose presses span the deadline boundary (processing latency included) are don't-cares; capitalised-first-letter form accepted when the user holds shift", "DESIGN.md §4 C20")
 NOT_YET = {}
 props = [json.loads(l) for l in open('/verif/properties.jsonl')]
 hooks_commits = subprocess.run(["git","-C","/repo","log","--format=%h %s"],capture_output=True,text=True).stdout.splitlines()
